@@ -843,6 +843,14 @@ func (x *Workload) Case(i, n int) (*Config, []Input) {
 // Expect is the censor-layer oracle for one input under one configuration.
 func (x *Workload) Expect(c *Config, in Input) Decision { return Expect(c, in, x.w.pool) }
 
+// Stmt returns pool statement id (the source of a query or pattern rule of a generated configuration), nil when out of range.
+func (x *Workload) Stmt(id int) *censorgen.Stmt {
+	if id < 0 || id >= len(x.w.pool) {
+		return nil
+	}
+	return x.w.pool[id]
+}
+
 // Text renders formatting variant v (0..censorgen.NVariants-1) of the input; unparseable strings have one spelling.
 func (in Input) Text(v int) string { return inputText(in, v) }
 
